@@ -147,11 +147,15 @@ def run_job(job, work, tier, log):
     def build(extra_defs, tag):
         a = os.path.join(jw, "a_%s.gb" % tag)
         b = os.path.join(jw, "b_%s.gb" % tag)
-        cmd = ["goto-cc", "--function", job.entry] + inc + defs + extra_defs + [harness, "-o", a]
+        cmd = ["goto-cc", "-Wall", "--function", job.entry] + inc + defs + extra_defs + [harness, "-o", a]
         rc, out, err, _ = sh(cmd, timeout=900)
         info["cmds"].append(" ".join(cmd))
         if rc != 0:
             raise ToolProblem("goto-cc failed (%s):\n%s" % (job.name, (out + err)[-3000:]))
+        # an undeclared function is implicitly int(): a harness input would silently lose its range
+        undecl = sorted(set(re.findall(r"function '(\w+)' is not declared", out + err)))
+        if undecl:
+            raise ToolProblem("goto-cc: undeclared function(s) %s in %s" % (undecl, job.name))
         if job.pre_unwind:
             # loops without a contract nested inside a loop with a contract must be unwound first
             # (constant bounds; the unwinding assertion proves the bound suffices)
